@@ -807,8 +807,9 @@ func (it *Interp) execNode(n Node, e *env, b *strings.Builder) error {
 			}
 			ctx[p.Name] = v
 		}
-		sub := &Interp{Files: it.Files, Context: ctx, Globals: it.Globals, autoescape: true, MaxMacroDepth: it.MaxMacroDepth,
-			cyclePos: it.cyclePos, ifchLast: it.ifchLast, ifchBody: it.ifchBody, ifchSeen: it.ifchSeen, depth: it.depth}
+		// an included template is rendered on its own: cycle/ifchanged memory starts afresh
+		sub := NewInterp(ctx, it.Files)
+		sub.Globals, sub.MaxMacroDepth, sub.depth, sub.IfChangedPerLoop = it.Globals, it.MaxMacroDepth, it.depth, it.IfChangedPerLoop
 		s, err := sub.Render(body)
 		if err != nil {
 			return err
